@@ -151,6 +151,7 @@ type scn struct {
 	fl        *logfile.FileLogger
 	parked    bool
 	singleton bool
+	afterNew  func() // called right after the constructor has returned
 }
 
 var singletonUsed bool
@@ -233,6 +234,9 @@ func (s *scn) start() {
 		s.c.Count("singleton_accessor_scenarios", 1)
 	} else {
 		s.fl = logfile.NewFileLogger(opts...)
+	}
+	if s.afterNew != nil {
+		s.afterNew()
 	}
 	s.parked = waitRunParked(s.fl)
 	if !s.parked {
